@@ -305,6 +305,9 @@ def run_check(world, prop, tier, verif_seed, level, rule, assumptions, scale=1.0
     }
     if hasattr(world, "coverage_extra"):
         coverage.update(world.coverage_extra(prop, stats, probes))
+    if hasattr(world, "post_checks"):
+        coverage.update(world.post_checks(tier, verif_seed))
+    wall = time.monotonic() - t0
     kernel.write_evidence(prop, tier, verif_seed, level, coverage, wall, len(violations), assumptions)
     for kh in known_hits:
         print("KNOWN-FINDING: property=%s %s [%s %s]" % (prop, kh.get("what"), kh["clause"], kh["signature"]))
